@@ -264,7 +264,8 @@ def data_sets(seed, reverse=False):
 FIXED_MD5 = [("d41d8cd98f00b204e9800998ecf8427e", "a b"),
              ("0123456789abcdef0123456789abcdef", "usr/share/doc/x y/with  two blanks"),
              ("ffffffffffffffffffffffffffffffff", "etc/é ü"),
-             ("00000000000000000000000000000000", "trailing blank ")]
+             ("00000000000000000000000000000000", "trailing blank "),
+             ("11111111111111111111111111111111", "*README*")]         # md5sum's binary-mode flag is not part of dpkg's format
 
 
 def control_sides(seed):
